@@ -66,7 +66,7 @@ def plan(tier, rnd):
                 items.append(dict(tid=tid, bl=bl, n=2500 if not heavy else 1200, exhaustive=True))
             for bl in ([4, 5, 6] if heavy else [4, 5, 6, 7]):
                 items.append(dict(tid=tid, bl=bl, n=150 if not heavy else {4: 60, 5: 20, 6: 4}[bl], exhaustive=False))
-    for kind in ("array_read", "array_write", "array_2d", "compose", "select_lazy", "reuse_after_guard", "under_true_guard", "three_level"):
+    for kind in ("array_read", "array_write", "array_2d", "compose", "select_lazy", "reuse_after_guard", "under_true_guard", "three_level", "ignore_mode"):
         for bl in (2, 3, 4):
             items.append(dict(tid=kind, bl=bl, n=(25 if tier == "quick" else 500), exhaustive=False))
     rnd.shuffle(items)
@@ -188,6 +188,16 @@ def special_case(kind, bl, rnd):
         c.expr = c.op_src
         c.tid = "under_true_guard"
         return c
+    if kind == "ignore_mode":
+        # valid operands, but the user has switched error checking off: the emitted constraints must be just as binding
+        from vf.opcases import sample_case
+        pool = [t for t in G.INT_T + G.BOOL_T if t[1] in ("i", "b") and t[0] not in DIV_FAMILY and t[0] not in SKIP and t[0] not in BITWISE_CONST]
+        tid, rty, tmpl = rnd.choice(pool)
+        c = sample_case("ignore:" + tid, tmpl, rty, bl, 0, rnd)
+        c.precheck_src = c.op_src
+        c.op_src = "import pysnark.runtime as _rt\n_rt.ignore_errors(True)\n" + c.op_src
+        c.tid = "ignore_mode"
+        return c
     if kind == "three_level":
         from vf.opcases import sample_case
         pool = [t for t in G.INT_T + G.BOOL_T if t[1] in ("i", "b") and t[0] not in DIV_FAMILY and t[0] not in SKIP and t[0] not in BITWISE_CONST
@@ -280,6 +290,12 @@ def worker(job):
 
 
 def judge(R, c, p, N, capture, solve, maxleaves=60000):
+    if getattr(c, "precheck_src", None):
+        pre = capture.capture(c.pre_src, c.precheck_src, c.results, c.inputs, N, c.bl, c.res, p=p)
+        if pre.exc is not None:
+            R.count("operands_invalid_for_ignore_mode_case")
+            R.case(nontrivial=False)
+            return None
     cap = capture.capture(c.pre_src, c.op_src, c.results, c.inputs, N, c.bl, c.res, p=p)
     R.count("solver_cases")
     if cap.exc is not None:
